@@ -112,6 +112,9 @@ def make_case(inp):
     c = inp["case"]; rng = rng_of(inp["pseed"], 41); t = inp.get("t")
     good = bool(inp.get("good_fit", False))
     lens = dict(z_lens=ZL, z_source=ZS, num_distribution_draws=inp["N_arg"], normalized=bool(rng.random() < 0.5))
+    # log_scatter (the SAMPLER walks in log10 of the scatter amplitudes; ParamManager hands linear widths to the lenses) must not change
+    # what a lens does with the linear width it is given (own stream: the other draws of the case stay as they were)
+    if rng_of(inp["pseed"], 43).random() < 0.4: lens["log_scatter"] = True
     kl = dict(lambda_mst=float(rng.uniform(0.9, 1.1)), lambda_mst_sigma=0.0, lambda_ifu=float(rng.uniform(0.9, 1.1)), lambda_ifu_sigma=0.0)
     kk, ks, klos = {}, dict(mu_sne=19.3, sigma_sne=0.0, z_apparent_m_anchor=0.1), None
     sig = []
